@@ -648,6 +648,12 @@ void Monitor::on_hexit(int status_arg, int result)
         if (dead())
                 return;
         stimulus_since_ok = true;
+        if (result == ST_MUTEX_UNLOCK) {
+                // the body ran, only its status was replaced by the unlock error
+                if (hold_phase != 0)
+                        release_request(status_arg == 0 ? 1 : -1, true);
+                return;
+        }
         if (result == ST_OK) {
                 if (hold_phase == 0) {
                         fail("C14", "hold-exit-accepted-outside-hold", "cat_hold_exit returned OK although no command is held");
